@@ -4,11 +4,14 @@ go 1.14
 
 require (
 	github.com/kubewharf/kubebrain v0.0.0
+	github.com/tikv/client-go/v2 v2.0.1
+	google.golang.org/grpc v1.43.0
+	k8s.io/klog/v2 v2.4.0
 )
 
 replace (
-	github.com/kubewharf/kubebrain => /repo
 	github.com/googleapis/gnostic => github.com/googleapis/gnostic v0.3.1
+	github.com/kubewharf/kubebrain => /repo
 	google.golang.org/grpc => google.golang.org/grpc v1.38.0
 	k8s.io/api => k8s.io/api v0.0.0-20191004102349-159aefb8556b
 	k8s.io/apiextensions-apiserver => k8s.io/apiextensions-apiserver v0.0.0-20191004105649-b14e3c49469a
